@@ -1,12 +1,12 @@
 #!/bin/sh
 # usage: confirmseed.sh <Cxx> <id> <pkgdir> <TestRegex>
-# confirms a seeded change delivered in /tmp/seed/<Cxx>/_seed: demo passes on the original code,
+# confirms a seeded change delivered in ${SEEDROOT:-/tmp/seed}/<Cxx>/_seed: demo passes on the original code,
 # fails with the patch, existing tests still pass with the patch; then stores it in /verif/seeded/<id>.
 P=$1; ID=$2; PKG=$3; T=$4
-W=/tmp/seed/$P
+W=${SEEDROOT:-/tmp/seed}/$P
 export GOPROXY=off GOSUMDB=off GOTOOLCHAIN=local
 cd $W || exit 2
-git checkout -q -- . ; git clean -fdq -e _seed
+git checkout -q -- . ; git clean -fdq -e _seed -e TASK.md
 for f in _seed/${DEMO:-*_test.go}; do cp "$f" "$PKG/zz_seed_$(basename $f)"; done
 orig=$(go test -vet=off -count=1 -run "$T" ./$PKG/ 2>&1 | tail -3); echo "ORIGINAL: $orig" | tail -2
 git apply _seed/patch.diff || { echo "PATCH DOES NOT APPLY"; exit 2; }
@@ -15,6 +15,6 @@ rm -f $PKG/zz_seed_*
 build=$(go build ./... 2>&1 | tail -2; (cd api && go build ./... 2>&1 | tail -2))
 suite=$(go test -vet=off -count=1 ./api/... ./pkg/... ./controllers/extendeddaemonset/... ./controllers/extendeddaemonsetreplicaset/... ./controllers/extendeddaemonsetsetting/... ./controllers/podtemplate/... ./cmd/... 2>&1 | grep -v "no test files" | grep -v "^ok" | head -5; (cd api && go test -vet=off -count=1 ./... 2>&1 | grep -v "no test files" | grep -v "^ok" | head -3))
 echo "BUILD: [$build] SUITE-NON-OK: [$suite]"
-git checkout -q -- . ; git clean -fdq -e _seed
+git checkout -q -- . ; git clean -fdq -e _seed -e TASK.md
 mkdir -p /verif/seeded/$ID && cp _seed/* /verif/seeded/$ID/
 echo "stored /verif/seeded/$ID"
